@@ -27,6 +27,10 @@ class HarnessError(Exception):
     """custom exception kind raised by an armed fault point"""
 
 
+class HarnessAbort(BaseException):
+    """fault kind that is not an Exception subclass (like KeyboardInterrupt)"""
+
+
 class Budget(Exception):
     """reference evaluation exceeded its step budget: the case is discarded"""
 
@@ -36,6 +40,7 @@ FAULT_KINDS = {
     "KeyError": KeyError,
     "ValueError": ValueError,
     "HarnessError": HarnessError,
+    "HarnessAbort": HarnessAbort,
 }
 
 
@@ -337,6 +342,7 @@ class Trace:
         self.cached = {}        # elem -> cached flag
         self.failed = {}        # elem -> (calls, refreads) of an execution that raised
         self.values = {}        # elem -> value of a completed execution
+        self.handled = 0        # exceptions caught by formulas themselves
         self.executed = []      # elems whose formula ran, in completion order
         self.entered = []       # elems in entry order
         self.created = []       # item spaces created (sid)
@@ -404,8 +410,9 @@ class Evaluator:
             self.trace.cached[elem] = cdef.cached
             self.trace.values[elem] = value
             return value
-        except Exception:
-            self.trace.failed.setdefault(elem, (rec[1], rec[2]))
+        except BaseException as exc:
+            if not isinstance(exc, Budget):
+                self.trace.failed.setdefault(elem, (rec[1], rec[2]))
             raise
         finally:
             self.stack.pop()
@@ -624,6 +631,14 @@ class Evaluator:
             if kind and kind != "None":
                 raise FAULT_KINDS[kind]("armed " + e[1])
             return 0
+        if k == "try":
+            try:
+                return self.ev(e[1], ctx, env)
+            except Budget:
+                raise
+            except Exception:
+                self.trace.handled += 1
+                return self.ev(e[2], ctx, env)
         if k == "failx":
             tag = e[1] + (str(env[e[2]]) if e[2] else "")
             kind = self.m.armed.get(tag)
@@ -685,7 +700,7 @@ def evaluate(model, sid, name, args=(), kwargs=None, budget=200000, held=None):
         raise
     except RecursionError:
         raise Budget()
-    except Exception as exc:      # an outcome, compared by type name
+    except (Exception, HarnessAbort) as exc:      # an outcome, compared by type name
         return ("err", type(exc).__name__, ev.trace)
 
 
